@@ -17,8 +17,9 @@
 (*           kscript, path, seq, keys]                                     *)
 (*   c.deepfired : root -> number of deep-observer calls                   *)
 (* script  = <<op, ...>>, op = <<"ret"|"del"|"ins"|"attr", n, ids>>        *)
-(*           (text delta / array change list; n in offset units of         *)
-(*           `unit` per element)                                           *)
+(*           (text delta / array change list; n counts in `unit`:          *)
+(*           "bytes" | "utf16" = the document's offset kind for a text,    *)
+(*           "elem" for an array)                                          *)
 (* kscript = <<<<key, "ins"|"upd"|"rem", old id, new id>>, ...>>           *)
 (* seq / keys = the observer's SHADOW copy, changed only by applying the   *)
 (*           received scripts (keys : key -> <<id>>).                      *)
@@ -57,26 +58,33 @@ PathTo(E, R, p, fuel) ==
           ELSE <<"", IndexOf(Visible(E, R, E[p].cont), p) - 1>> >>
 
 ---------------------------------------------------------------------------
-(* Apply(script, value): standard delta / change-list semantics            *)
-RECURSIVE Fits(_, _, _, _)
-Fits(ops, len, pos, u) ==
-  IF ops = <<>> THEN TRUE
-  ELSE LET op == ops[1]
-       IN CASE op[1] = "ret" -> /\ op[2] % u = 0 /\ pos + (op[2] \div u) <= len
-                                /\ Fits(Tail(ops), len, pos + (op[2] \div u), u)
-            [] op[1] = "del" -> /\ op[2] % u = 0 /\ pos + (op[2] \div u) <= len
-                                /\ Fits(Tail(ops), len - (op[2] \div u), pos, u)
-            [] op[1] = "ins" -> Fits(Tail(ops), len + Len(op[3]), pos + Len(op[3]), u)
-            [] OTHER -> FALSE      \* attributes although nothing was ever formatted
+(* Apply(script, value): standard delta / change-list semantics.           *)
+(* Retain / delete lengths count in the observed type's unit `u`:          *)
+(* "bytes" | "utf16" for a text (the document's offset kind: a character   *)
+(* of 1|2 elements is 1..4 bytes or 1|2 UTF-16 units long, WidthIn of      *)
+(* Yata.tla), "elem" for arrays.  A length must end on a character         *)
+(* boundary of the content it runs over.                                   *)
+(* number of elements of v behind gap pos covered by n units; Len(v) + 1 = none *)
+Span(E, v, pos, n, u) ==
+  LET w0 == WidthOfSeq(E, v, pos, u)
+      K  == {k \in 0..(Len(v) - pos) : OnCharBoundary(E, v, pos + k) /\ WidthOfSeq(E, v, pos + k, u) - w0 = n}
+  IN IF K = {} THEN Len(v) + 1 ELSE CHOOSE k \in K : \A j \in K : k <= j
 
-RECURSIVE ApplySeq(_, _, _, _)
-ApplySeq(ops, v, pos, u) ==
-  IF ops = <<>> THEN v
+(* <<the script fits the value it is applied to, the resulting value>> *)
+RECURSIVE RunScript(_, _, _, _, _)
+RunScript(E, ops, v, pos, u) ==
+  IF ops = <<>> THEN <<TRUE, v>>
   ELSE LET op == ops[1]
-       IN CASE op[1] = "ret" -> ApplySeq(Tail(ops), v, pos + (op[2] \div u), u)
-            [] op[1] = "del" -> ApplySeq(Tail(ops), SubSeq(v, 1, pos) \o SubSeq(v, pos + (op[2] \div u) + 1, Len(v)), pos, u)
-            [] op[1] = "ins" -> ApplySeq(Tail(ops), SubSeq(v, 1, pos) \o op[3] \o SubSeq(v, pos + 1, Len(v)), pos + Len(op[3]), u)
-            [] OTHER -> v
+       IN CASE op[1] \in {"ret", "del"} ->
+                 LET k == Span(E, v, pos, op[2], u)
+                 IN IF k > Len(v) THEN <<FALSE, v>>
+                    ELSE IF op[1] = "ret" THEN RunScript(E, Tail(ops), v, pos + k, u)
+                    ELSE RunScript(E, Tail(ops), SubSeq(v, 1, pos) \o SubSeq(v, pos + k + 1, Len(v)), pos, u)
+            [] op[1] = "ins" ->
+                 RunScript(E, Tail(ops), SubSeq(v, 1, pos) \o op[3] \o SubSeq(v, pos + 1, Len(v)), pos + Len(op[3]), u)
+            [] OTHER -> <<FALSE, v>>      \* attributes although nothing was ever formatted
+Fits(E, ops, v, u) == RunScript(E, ops, v, 0, u)[1]
+ApplySeq(E, ops, v, u) == RunScript(E, ops, v, 0, u)[2]
 
 KeyEntries(ks, k) == {i \in 1..Len(ks) : ks[i][1] = k}
 ScriptKeys(ks) == {ks[i][1] : i \in 1..Len(ks)}
@@ -122,8 +130,8 @@ C11_EventExact(E, R2, c) ==
 ScriptExactFor(E, R, R2, d, T) ==
   IF d.kind = "seq"
   THEN LET before == SeqContent(E, R, T)
-       IN /\ Fits(d.script, Len(before), 0, d.unit)
-          /\ ApplySeq(d.script, before, 0, d.unit) = SeqContent(E, R2, T)
+           run == RunScript(E, d.script, before, 0, d.unit)
+       IN run[1] /\ run[2] = SeqContent(E, R2, T)
   ELSE \A k \in KeysOfType(E, R, T) \cup KeysOfType(E, R2, T) \cup ScriptKeys(d.kscript) :
           KeyExact(d.kscript, k, KeyVal(E, R, T, k), KeyVal(E, R2, T, k))
 
